@@ -146,8 +146,22 @@ impl Meta {
     pub fn write(page_pool: &PagePool, fd: &File, meta: &Meta) -> std::io::Result<()> {
         let mut page = page_pool.alloc_fat_page();
         meta.encode_to(&mut page.as_mut()[..META_SIZE]);
+        #[cfg(feature = "verif-hooks")]
+        let vt = crate::verif::before(crate::verif::IoOp::Write {
+            fd: std::os::fd::AsRawFd::as_raw_fd(fd),
+            offset: 0,
+            data: &page[..],
+        })?;
         fd.write_all_at(&page[..], 0)?;
+        #[cfg(feature = "verif-hooks")]
+        crate::verif::after(vt, true);
+        #[cfg(feature = "verif-hooks")]
+        let vt = crate::verif::before(crate::verif::IoOp::Fsync {
+            fd: std::os::fd::AsRawFd::as_raw_fd(fd),
+        })?;
         fd.sync_all()?;
+        #[cfg(feature = "verif-hooks")]
+        crate::verif::after(vt, true);
         Ok(())
     }
 }
